@@ -118,6 +118,21 @@ func c1RegionCases(r *rng, thorough bool) []*c1case {
 			src := c1Wrap("", fmt.Sprintf("\ts := \"hello\"\n\tx, y := %d, %d\n\tx, y = len(s), %d\n\tfmt.Println(x, y)\n", a, b, a+b))
 			add("multi-assign-call", src, "", c1Pred{fmt.Sprintf("5 %d\nend\n", b), "ok"})
 		}
+		// return-builtin: a builtin call that is not the first result lands in the first result slot
+		{
+			src := c1Wrap("func f(s string) (int, int) {\n\treturn 7, len(s)\n}\n\nfunc g(s string) (int, int) {\n\treturn len(s) + 1, len(s)\n}\n\n", "\tfmt.Println(f(\"abc\"))\n\tfmt.Println(g(\"abc\"))\n")
+			add("return-builtin", src, "7 3\n4 3\nend\n", c1Pred{"7 7\n3 3\nend\n", "ok"})
+		}
+		// closure-struct-lit: the composite-literal shortcut writes into the closure's own frame
+		{
+			src := c1Wrap("type S struct {\n\tA, B int\n}\n\n", fmt.Sprintf("\ts := S{%d, %d}\n\tfunc() {\n\t\ts = S{A: s.B, B: s.A}\n\t}()\n\tfmt.Println(s)\n", a, b))
+			add("closure-struct-lit", src, "", c1Pred{fmt.Sprintf("{%d %d}\nend\n", a, b), "ok"})
+		}
+		// float-negzero: a negative zero passed as an argument arrives as +0
+		{
+			src := c1Wrap("func f(p float64) {\n\tfmt.Println(p, 1/p)\n}\n\n", "\ti := 0\n\tx := float64(i) / (-0.25)\n\tfmt.Println(x)\n\tf(x)\n")
+			add("float-negzero", src, "-0\n-0 -Inf\nend\n", c1Pred{"-0\n0 +Inf\nend\n", "ok"})
+		}
 		// paren-literal
 		{
 			src := c1Wrap("", "\tb := true\n\ts := \"hello\"\n\tfmt.Println(\"start\")\n\tif (s >= (\"q\")) || b {\n\t\tfmt.Println(\"then\")\n\t}\n")
